@@ -129,6 +129,71 @@ pub fn run(tier: Tier) -> i32 {
             ctx.scope_done(&name, cases.load(Ordering::Relaxed), t0, "5 trailers x reader kinds");
         }
     }
+    // ------------------------------------------------------------ raw decoder reused on members that follow each other in one container
+    {
+        let name = "raw-decoder-reuse/concatenated-members";
+        if ctx.may_start(name) {
+            let t0 = Instant::now();
+            use crate::cases::RawOp;
+            let progs: Vec<Vec<Sym>> = vec![
+                vec![Sym::L(1), Sym::L(2), Sym::L(3), Sym::M(3, 6), Sym::S],
+                vec![Sym::L(9), Sym::L(8), Sym::M(2, 5), Sym::R(0, 3)],
+                vec![Sym::L(7); 12],
+                vec![],
+            ];
+            let mut n_cases = 0u64;
+            for (lc, lp, pb) in [(3u32, 0u32, 2u32), (0, 0, 0)] {
+                for a in &progs {
+                    for b in &progs {
+                        let ea = enc::encode(lc, lp, pb, u64::MAX, a);
+                        let mut bm = b.clone();
+                        bm.push(Sym::E);
+                        let eb_marker = enc::encode(lc, lp, pb, u64::MAX, &bm);
+                        let eb_sized = enc::encode(lc, lp, pb, u64::MAX, b);
+                        let na = ea.expect.len() as u64;
+                        let nb = eb_sized.expect.len() as u64;
+                        // member A (size given at construction) followed by other bytes; then reset to "unknown size" and a
+                        // marker-terminated member; then reset to a known size and a sized member followed by other bytes
+                        let mut in0 = ea.payload.clone();
+                        in0.extend_from_slice(&eb_marker.payload);
+                        let mut in2 = eb_sized.payload.clone();
+                        in2.extend_from_slice(&[0xFF, 0x00, 0x55]);
+                        let mut in3 = eb_marker.payload.clone();
+                        in3.push(0);
+                        let ops = vec![
+                            RawOp::Dec(Hex(in0)),
+                            RawOp::ResetSize(None),
+                            RawOp::Dec(Hex(eb_marker.payload.clone())),
+                            RawOp::ResetSize(Some(nb)),
+                            RawOp::Dec(Hex(in2)),
+                            RawOp::ResetSize(None),
+                            RawOp::Dec(Hex(in3)),
+                        ];
+                        let case = Case::RawLzma { lc, lp, pb, dict: 4096, size: Some(na), memlimit: None, ops };
+                        let o = run_case(&case);
+                        n_cases += 1;
+                        ctx.eval(1);
+                        ctx.nontriv(1);
+                        let ok = o.ops.len() == 7
+                            && o.ops[0].v.is_ok()
+                            && o.ops[0].n == Some(ea.payload.len() as u64)
+                            && o.ops[0].sink_len == ea.expect.len()
+                            && o.ops[2].v.is_ok()
+                            && o.ops[2].n == Some(eb_marker.payload.len() as u64)
+                            && o.ops[2].sink_len == eb_marker.expect.len()
+                            && o.ops[4].v.is_ok()
+                            && o.ops[4].n == Some(eb_sized.payload.len() as u64)
+                            && o.ops[4].sink_len == eb_sized.expect.len()
+                            && o.ops[6].v.is_err();
+                        if !ok {
+                            ctx.violation(&case, &format!("raw LzmaDecoder reused on members [{}] (size {}) / [{}] (marker) / [{}] (size {}) / marker member + 1 trailing byte: each sized decode stops exactly at the end of its payload ({} / {} / {} bytes consumed) and the marker-terminated member with a trailing byte is an error", prog_str(a), na, prog_str(&bm), prog_str(b), nb, ea.payload.len(), eb_marker.payload.len(), eb_sized.payload.len()), &o, None);
+                        }
+                    }
+                }
+            }
+            ctx.scope_done(name, n_cases, t0, "decompress / reset(Some(None)) / decompress / reset(Some(Some(n))) / decompress on payloads followed by other data");
+        }
+    }
     // ------------------------------------------------------------ converse: whole-file decoders reject trailing bytes
     {
         let name = "converse/marker-lzma-and-xz-reject-trailers";
